@@ -158,10 +158,19 @@ def to_src(t) -> str:
 
 
 # ---------------------------------------------------------------------------------------------- real Columns
-def to_col(t, F):
-    """build the real Column with module F (sqlframe.duckdb.functions or pyspark.sql.functions)"""
+def to_col(t, F, hole=None):
+    """build the real Column with module F (sqlframe.duckdb.functions or pyspark.sql.functions);
+    ("hole",) stands for the already built Column object `hole` (shared sub-expression), and
+    ("whenx", more, otherwise) for hole.when(..)...[.otherwise(..)] (a shared when-chain prefix)"""
     import operator
     k = t[0]
+    if k == "hole":
+        return hole
+    if k == "whenx":
+        c = hole
+        for cd, v in t[1]:
+            c = c.when(to_col(cd, F, hole), to_col(v, F, hole))
+        return c.otherwise(to_col(t[2], F, hole)) if t[2] is not None else c
     if k == "col":
         return F.col(t[1])
     if k == "lit":
@@ -172,43 +181,108 @@ def to_col(t, F):
            "==": operator.eq, "!=": operator.ne, "<": operator.lt, "<=": operator.le, ">": operator.gt,
            ">=": operator.ge, "&": operator.and_, "|": operator.or_}
     if k == "bin":
-        return OPS[t[1]](to_col(t[2], F), to_col(t[3], F))
+        return OPS[t[1]](to_col(t[2], F, hole), to_col(t[3], F, hole))
     if k == "rbin":
-        return OPS[t[1]](t[2], to_col(t[3], F))       # Python dispatches to the reflected dunder
+        return OPS[t[1]](t[2], to_col(t[3], F, hole))       # Python dispatches to the reflected dunder
     if k == "nse":
-        return to_col(t[1], F).eqNullSafe(to_col(t[2], F))
+        return to_col(t[1], F, hole).eqNullSafe(to_col(t[2], F, hole))
     if k == "neg":
-        return -to_col(t[1], F)
+        return -to_col(t[1], F, hole)
     if k == "not":
-        return ~to_col(t[1], F)
+        return ~to_col(t[1], F, hole)
     if k == "isnull":
-        return to_col(t[1], F).isNull()
+        return to_col(t[1], F, hole).isNull()
     if k == "isnotnull":
-        return to_col(t[1], F).isNotNull()
+        return to_col(t[1], F, hole).isNotNull()
     if k == "isin":
-        return to_col(t[1], F).isin(*t[2])
+        return to_col(t[1], F, hole).isin(*t[2])
     if k == "between":
-        return to_col(t[1], F).between(to_col(t[2], F), to_col(t[3], F))
+        return to_col(t[1], F, hole).between(to_col(t[2], F, hole), to_col(t[3], F, hole))
     if k in ("like", "ilike", "rlike"):
-        return getattr(to_col(t[1], F), k)(t[2])
+        return getattr(to_col(t[1], F, hole), k)(t[2])
     if k in ("startswith", "endswith"):
-        return getattr(to_col(t[1], F), k)(to_col(t[2], F))
+        return getattr(to_col(t[1], F, hole), k)(to_col(t[2], F, hole))
     if k == "substr":
-        return to_col(t[1], F).substr(to_col(t[2], F), to_col(t[3], F))
+        return to_col(t[1], F, hole).substr(to_col(t[2], F, hole), to_col(t[3], F, hole))
     if k == "when":
         c = None
         for cd, v in t[1]:
-            c = F.when(to_col(cd, F), to_col(v, F)) if c is None else c.when(to_col(cd, F), to_col(v, F))
-        return c.otherwise(to_col(t[2], F)) if t[2] is not None else c
+            c = F.when(to_col(cd, F, hole), to_col(v, F, hole)) if c is None else c.when(to_col(cd, F, hole), to_col(v, F, hole))
+        return c.otherwise(to_col(t[2], F, hole)) if t[2] is not None else c
     if k == "cast":
-        return to_col(t[1], F).cast(t[2])
+        return to_col(t[1], F, hole).cast(t[2])
     if k == "alias":
-        return to_col(t[1], F).alias(t[2])
+        return to_col(t[1], F, hole).alias(t[2])
     if k == "getitem":
-        return to_col(t[1], F).getItem(t[2])
+        return to_col(t[1], F, hole).getItem(t[2])
     if k == "getitemcol":
-        return to_col(t[1], F).getItem(to_col(t[2], F))
+        return to_col(t[1], F, hole).getItem(to_col(t[2], F, hole))
     raise ValueError(t)
+
+
+def subst(ctx, u):
+    """the tree as written: the context with its hole filled by the shared sub-tree u"""
+    if ctx == ("hole",):
+        return u
+    if ctx[0] == "whenx":
+        assert u[0] == "when" and u[2] is None
+        return ("when", list(u[1]) + [(subst(c, u), subst(v, u)) for c, v in ctx[1]],
+                None if ctx[2] is None else subst(ctx[2], u))
+    if ctx[0] == "when":
+        return ("when", [(subst(c, u), subst(v, u)) for c, v in ctx[1]], None if ctx[2] is None else subst(ctx[2], u))
+    if ctx[0] in ("col", "lit", "py"):
+        return ctx
+    if ctx[0] == "isin":
+        return ("isin", subst(ctx[1], u), ctx[2])
+    if ctx[0] == "rbin":
+        return ("rbin", ctx[1], ctx[2], subst(ctx[3], u))
+    return tuple(subst(x, u) if isinstance(x, tuple) else x for x in ctx)
+
+
+def shared_programs(rnd, n_random=40):
+    """programs that build ONE Column object for a sub-expression and reuse it in several larger expressions;
+    every use is evaluated after all of them were built.  -> list of (u, [ctx, ...])"""
+    A, B, S, P, Q = (("col", c) for c in ["a", "b", "s", "p", "q"])
+    H = ("hole",)
+    progs = []
+    # when-chain prefixes extended into different chains (and used bare)
+    for u, more, ows in [
+        (("when", [(("bin", "<", A, ("py", 1)), ("py", "low"))], None),
+         [(("bin", "<", A, ("py", 2)), ("py", "mid"))], [("py", "high"), ("py", "other")]),
+        (("when", [(P, A)], None), [(Q, B)], [("py", 0), B]),
+        (("when", [(("isnull", A), ("py", True)), (P, Q)], None), [(("bin", ">", B, ("py", 0)), ("lit", False))], [P, ("py", False)]),
+    ]:
+        progs.append((u, [("whenx", more, ows[0]), ("whenx", [], ows[1]), ("whenx", more, None), H,
+                          ("isnull", H), ("whenx", more + more, ows[1])]))
+    # any sub-expression object used in two different larger expressions
+    fixed = [
+        (("bin", "+", A, B), [("bin", "*", H, ("py", 2)), ("bin", "<", H, B), ("neg", H), ("isnull", H), ("alias", H, "z"), H]),
+        (("bin", "==", A, B), [("bin", "&", H, P), ("not", H), ("when", [(H, A)], B), ("cast", H, "string"), H]),
+        (("col", "a"), [("bin", "+", H, ("py", 1)), ("rbin", "-", 1, H), ("between", H, ("py", 0), B), ("isin", H, [1, 2]), H]),
+        (("alias", ("bin", "*", A, ("py", 2)), "dbl"), [("bin", "+", H, B), ("isnotnull", H), ("cast", H, "string"), H]),
+        (("isnull", S), [("bin", "|", H, P), ("not", H), ("bin", "&", ("not", H), H)]),
+        (("cast", A, "string"), [("like", H, "1%"), ("startswith", H, ("py", "1")), ("bin", "==", H, S), ("substr", H, ("py", 1), ("py", 1))]),
+    ]
+    progs += fixed
+    g = Gen(rnd)
+    hosts = {
+        "int": [lambda h, x: ("bin", "+", h, x), lambda h, x: ("bin", "-", x, h), lambda h, x: ("bin", "<", h, x),
+                lambda h, x: ("neg", h), lambda h, x: ("isnull", h), lambda h, x: ("nse", x, h),
+                lambda h, x: ("between", x, h, ("py", 2)), lambda h, x: ("rbin", "*", 2, h),
+                lambda h, x: ("when", [(("bin", ">", h, ("py", 0)), h)], x), lambda h, x: ("cast", h, "string")],
+        "bool": [lambda h, x: ("bin", "&", h, x), lambda h, x: ("bin", "|", x, h), lambda h, x: ("not", h),
+                 lambda h, x: ("when", [(h, x)], ("not", h)), lambda h, x: ("isnotnull", h), lambda h, x: ("alias", h, "z")],
+        "str": [lambda h, x: ("bin", "==", h, x), lambda h, x: ("like", h, "a%"), lambda h, x: ("isnull", h),
+                lambda h, x: ("startswith", h, x), lambda h, x: ("substr", h, ("py", 1), ("py", 1))],
+    }
+    for _ in range(n_random):
+        ty = rnd.choice(["int", "bool", "str"])
+        u = g.gen(ty, rnd.choice([1, 2]))
+        if u[0] in ("col", "lit"):
+            continue
+        ctxs = [h(H, g.gen(ty, 1)) for h in rnd.sample(hosts[ty], 3)] + [H]
+        progs.append((u, ctxs))
+    return progs
 
 
 def children(t):
@@ -251,6 +325,8 @@ def from_json(x):
     if isinstance(x, list):
         if x and x[0] == "isin":
             return ("isin", from_json(x[1]), list(x[2]))
+        if x and x[0] == "whenx":
+            return ("whenx", [(from_json(c), from_json(v)) for c, v in x[1]], None if x[2] is None else from_json(x[2]))
         if x and x[0] == "when":
             return ("when", [(from_json(c), from_json(v)) for c, v in x[1]], None if x[2] is None else from_json(x[2]))
         if x and x[0] in ("lit", "py"):
